@@ -113,6 +113,13 @@ TEMPLATES = [
     ("BC XC", "BM MX XD", ["C@BM"], ["M@BC", "X@B", "C@BX"]),                  # four worlds, equal copies on a diagonal
     ("EZ ZD DA DW", "ED AW", ["D@EW"], ["D@WZ", "Z@AW", "E@", "A@W"]),         # four worlds and the factual one
     ("BC XC", "BM MX XD", ["C@BM", "D@X"], ["X@B", "C@BX"]),
+    # two worlds forcing one variable to one value, overlapping without being nested (a child of it in both)
+    ("AE AZ", "AZ EZ", ["Z@AC", "E@AZ"], []),
+    ("AE AZ", "AZ EZ", ["Z@AC"], ["E@AZ"]),
+    ("XY WM", "", ["Y@XW", "Y@XM!"], []),                                       # ... with contradicting values: impossible
+    # an observed parent that is also forced in a world with a further intervention; the outcome in both, contradicting
+    ("XY ZY", "", ["X@", "Z@", "Y@XZ", "Y@!"], []),
+    ("XY ZY", "", ["Y@XZ", "Y@!"], ["X@", "Z@"]),
 ]
 
 
@@ -131,8 +138,9 @@ def planted_template(rng):
     gd = {"nodes": sorted(nm) if rng.random() < 0.5 else nm, "di": di, "bi": bi, "hostile": "planted-template"}
 
     def conj(t):
-        v, w = t.split("@")
-        return [name[v], [[name[x], pol[x]] for x in w], pol[v]]
+        flip = t.endswith("!")
+        v, w = t.rstrip("!").split("@")
+        return [name[v], [[name[x], pol[x]] for x in w], (not pol[v]) if flip else pol[v]]
 
     return gd, [conj(t) for t in outs], [conj(t) for t in conds]
 
